@@ -34,14 +34,25 @@ func Pay(off, n int) Data {
 	}
 	return Data{Off: off, Len: n}
 }
+
+// PayTail is a payload descriptor followed by literal bytes.
+func PayTail(off, n int, tail []byte) Data {
+	if n <= 0 {
+		return Lit(tail)
+	}
+	return Data{Off: off, Len: n, Lit: append([]byte{}, tail...)}
+}
 func (d Data) Bytes() []byte {
 	if d.Len > 0 {
-		return core.Payload(d.Off, d.Len)
+		return append(core.Payload(d.Off, d.Len), d.Lit...)
 	}
 	return d.Lit
 }
 func (d Data) Term() string {
 	if d.Len > 0 {
+		if len(d.Lit) > 0 {
+			return "(" + core.PayloadTerm(d.Off, d.Len) + " ++ " + core.Hex(d.Lit) + ")%list"
+		}
 		return core.PayloadTerm(d.Off, d.Len)
 	}
 	return core.Hex(d.Lit)
